@@ -59,7 +59,7 @@ func NewTimer(d, period int64, fn func()) (*TimerHandle, chan gotime.Time, bool)
 	if fn == nil {
 		t.ch = make(chan gotime.Time, 1)
 	}
-	s.timers = append(s.timers, t)
+	s.timers = timersAppend(s.timers, t)
 	return &TimerHandle{t}, t.ch, true
 }
 
@@ -73,7 +73,14 @@ func (h *TimerHandle) Stop() bool {
 	if s != nil {
 		for i, t := range s.timers {
 			if t == h.t {
-				s.timers = append(s.timers[:i], s.timers[i+1:]...)
+				// element-wise (runtime.slicecopy is instrumented even under
+				// go:norace, and successive baton holders are deliberately not
+				// ordered for the race detector)
+				for j := i; j+1 < len(s.timers); j++ {
+					s.timers[j] = s.timers[j+1]
+				}
+				s.timers[len(s.timers)-1] = nil
+				s.timers = s.timers[:len(s.timers)-1]
 				break
 			}
 		}
@@ -95,7 +102,7 @@ func (h *TimerHandle) Reset(d, period int64) bool {
 	h.t.active = true
 	s.timerSeq++
 	h.t.seq = s.timerSeq
-	s.timers = append(s.timers, h.t)
+	s.timers = timersAppend(s.timers, h.t)
 	return was
 }
 
@@ -163,7 +170,11 @@ func (s *Sim) fireDue() int {
 			best.active = false
 			for i, t := range s.timers {
 				if t == best {
-					s.timers = append(s.timers[:i], s.timers[i+1:]...)
+					for j := i; j+1 < len(s.timers); j++ {
+						s.timers[j] = s.timers[j+1]
+					}
+					s.timers[len(s.timers)-1] = nil
+					s.timers = s.timers[:len(s.timers)-1]
 					break
 				}
 			}
@@ -362,4 +373,21 @@ func (s *Sim) ActiveTimers() []int64 {
 	}
 	sort.Slice(r, func(i, j int) bool { return r[i] < r[j] })
 	return r
+}
+
+// timersAppend appends without runtime.growslice/slicecopy (see Stop).
+//
+//go:norace
+func timersAppend(ts []*simTimer, t *simTimer) []*simTimer {
+	if len(ts) < cap(ts) {
+		ts = ts[:len(ts)+1]
+		ts[len(ts)-1] = t
+		return ts
+	}
+	n := make([]*simTimer, len(ts)+1, 2*cap(ts)+4)
+	for i := range ts {
+		n[i] = ts[i]
+	}
+	n[len(ts)] = t
+	return n
 }
